@@ -368,6 +368,9 @@ type pathDomain struct {
 	// force lets a query assume the value ("N"/"NN") an error variable gets at a
 	// particular definition (e.g. "assume this call failed").
 	force func(n *Node, v *types.Var) string
+	// syms holds the conditions that boolean locals were bound to
+	// (`ok := x == nil`), by the key stored in the state ("sym:<key>").
+	syms map[string]ast.Expr
 }
 
 func (d *pathDomain) Transfer(n *Node, s Store) []Store {
@@ -415,6 +418,50 @@ func (d *pathDomain) Transfer(n *Node, s Store) []Store {
 		case types.Identical(v.Type().Underlying(), types.Typ[types.Bool]):
 			val := "?"
 			if !tuple && rhs != nil {
+				// b = !c / b = c with c known; b = <condition> remembered symbolically
+				r := ast.Unparen(rhs)
+				neg := false
+				for {
+					if u, ok := r.(*ast.UnaryExpr); ok && u.Op == token.NOT {
+						neg = !neg
+						r = ast.Unparen(u.X)
+						continue
+					}
+					break
+				}
+				if rv, ok := identObj(info, r).(*types.Var); ok && !rv.IsField() {
+					cur := s.Get("P:" + varKey(rv))
+					switch {
+					case cur == "true" || cur == "false":
+						val = map[bool]string{true: "true", false: "false"}[(cur == "true") != neg]
+					case strings.HasPrefix(cur, "sym:") || strings.HasPrefix(cur, "nsym:"):
+						isN := strings.HasPrefix(cur, "nsym:")
+						key := strings.TrimPrefix(strings.TrimPrefix(cur, "nsym:"), "sym:")
+						if isN != neg {
+							val = "nsym:" + key
+						} else {
+							val = "sym:" + key
+						}
+					}
+				} else {
+					switch r.(type) {
+					case *ast.BinaryExpr, *ast.CallExpr, *ast.SelectorExpr:
+						if _, isConst := constInt(info, r); !isConst {
+							if d.syms == nil {
+								d.syms = map[string]ast.Expr{}
+							}
+							key := d.p.Pos(r)
+							d.syms[key] = r
+							if neg {
+								val = "nsym:" + key
+							} else {
+								val = "sym:" + key
+							}
+						}
+					}
+				}
+			}
+			if val == "?" && !tuple && rhs != nil {
 				if id, ok := ast.Unparen(rhs).(*ast.Ident); ok {
 					if _, isConst := info.Uses[id].(*types.Const); isConst && (id.Name == "true" || id.Name == "false") {
 						val = id.Name
@@ -437,6 +484,31 @@ func (d *pathDomain) Transfer(n *Node, s Store) []Store {
 				}
 			}
 			ups = append(ups, upd{k, val})
+		}
+	}
+	if len(d.syms) > 0 && len(defs) > 0 {
+		for _, k := range s.Keys("P:") {
+			val := s.Get(k)
+			if !strings.HasPrefix(k, "P:") || !(strings.HasPrefix(val, "sym:") || strings.HasPrefix(val, "nsym:")) {
+				continue
+			}
+			ex := d.syms[strings.TrimPrefix(strings.TrimPrefix(val, "nsym:"), "sym:")]
+			stale := false
+			if ex != nil {
+				ast.Inspect(ex, func(x ast.Node) bool {
+					if id, ok := x.(*ast.Ident); ok {
+						if ov, ok := info.Uses[id].(*types.Var); ok {
+							if _, re := defs[ov]; re {
+								stale = true
+							}
+						}
+					}
+					return true
+				})
+			}
+			if stale {
+				s = s.Without(k)
+			}
 		}
 	}
 	for _, u := range ups {
@@ -487,6 +559,24 @@ func (d *pathDomain) Refine(e *Edge, s Store) (Store, bool) {
 			want = "true"
 		}
 		cur := s.Get(k)
+		if strings.HasPrefix(cur, "sym:") || strings.HasPrefix(cur, "nsym:") {
+			// the flag stands for a condition: take the corresponding edge of it
+			ex := d.syms[strings.TrimPrefix(strings.TrimPrefix(cur, "nsym:"), "sym:")]
+			holds := at.True != strings.HasPrefix(cur, "nsym:")
+			if ex != nil {
+				branch := +1
+				if !holds {
+					branch = -1
+				}
+				fake := &Edge{From: e.From, To: e.To, Cond: ex, Branch: branch}
+				s2, ok := d.Refine(fake, s)
+				if !ok {
+					return s, false
+				}
+				return s2.With(k, want), true
+			}
+			return s.With(k, want), true
+		}
 		if cur != "" && cur != want {
 			return s, false
 		}
@@ -621,6 +711,16 @@ func (p *Prog) singleDef(f *Func, v *types.Var) ast.Expr {
 func (p *Prog) Deref(f *Func, e ast.Expr) ast.Expr {
 	info := f.Pkg.TypesInfo
 	for i := 0; i < 5; i++ {
+		// X.f where X is a local struct bound once to a literal, or where the
+		// struct type is one the reference tree does not have (a parameter /
+		// result bundle introduced by a refactoring) and f is assigned once
+		if se, isSel := ast.Unparen(e).(*ast.SelectorExpr); isSel {
+			if r := p.derefField(f, se); r != nil {
+				e = r
+				continue
+			}
+			return e
+		}
 		v, ok := identObj(info, ast.Unparen(e)).(*types.Var)
 		if !ok {
 			return e
@@ -658,4 +758,71 @@ func (p *Prog) EdgeAtom(f *Func, e *Edge) (condAtom, bool) {
 		return a2, true
 	}
 	return at, ok
+}
+
+// derefField resolves X.f to the expression stored in that field, when that is
+// unambiguous (see Deref). Returns nil otherwise.
+func (p *Prog) derefField(f *Func, se *ast.SelectorExpr) ast.Expr {
+	info := f.Pkg.TypesInfo
+	fv := SelField(info, se)
+	if fv == nil {
+		return nil
+	}
+	root := f
+	for root.Parent != nil {
+		root = root.Parent
+	}
+	// (a) local struct variable defined once by a composite literal
+	if bv, ok := identObj(info, ast.Unparen(se.X)).(*types.Var); ok && !bv.IsField() {
+		if d := p.singleDef(f, bv); d != nil {
+			d = ast.Unparen(d)
+			if u, ok := d.(*ast.UnaryExpr); ok && u.Op == token.AND {
+				d = ast.Unparen(u.X)
+			}
+			if cl, ok := d.(*ast.CompositeLit); ok {
+				for _, el := range cl.Elts {
+					if kv, ok := el.(*ast.KeyValueExpr); ok {
+						if k, ok := kv.Key.(*ast.Ident); ok && info.Uses[k] == fv {
+							return kv.Value
+						}
+					}
+				}
+			}
+		}
+	}
+	// (b) field of a struct type the reference tree does not have, assigned exactly once in the function
+	owner := ""
+	if n := p.FieldName(fv); strings.Contains(n, ".") {
+		owner = n[:strings.LastIndex(n, ".")]
+	}
+	if owner == "" || knownFields[owner] != nil {
+		return nil
+	}
+	var rhs ast.Expr
+	cnt := 0
+	ast.Inspect(root.Body, func(x ast.Node) bool {
+		switch st := x.(type) {
+		case *ast.AssignStmt:
+			for i, l := range st.Lhs {
+				if SelField(info, l) == fv {
+					cnt++
+					if len(st.Rhs) == len(st.Lhs) {
+						rhs = st.Rhs[i]
+					} else {
+						cnt++
+					}
+				}
+			}
+		case *ast.KeyValueExpr:
+			if k, ok := st.Key.(*ast.Ident); ok && info.Uses[k] == fv {
+				cnt++
+				rhs = st.Value
+			}
+		}
+		return true
+	})
+	if cnt == 1 {
+		return rhs
+	}
+	return nil
 }
